@@ -471,6 +471,19 @@ def judge_run(ck, rn, planner, seed, hname, k, K, ops, stats):
 
 
 REPORTED = set()
+WATCHDOG_CLAUSES = ("no-return-after-fire", "stalled-no-ptc-evaluation")
+CONFIRM_LIMIT_S = 120
+
+
+def confirm_watchdog(ck, rn, res, clause):
+    """second opinion for a wall-clock verdict: the same script with a 120 s watchdog limit"""
+    script = [res["script"][0].replace("limit=%d" % RETURN_LIMIT_S, "limit=%d" % CONFIRM_LIMIT_S)] + list(res["script"][1:])
+    try:
+        out, rc, err = ck.run_bin(rn.hbin, script, timeout=1200)
+    except Exception:
+        return True
+    fails = oracle(res["planner"], res["ops"], out, rc, err)
+    return any(f[1] in WATCHDOG_CLAUSES or f[1] == "no-return" for f in fails)
 
 
 def report_fail(ck, rn, res):
@@ -492,6 +505,12 @@ def report_fail(ck, rn, res):
         if key in seen:
             continue
         seen.add(key)
+        if clause in WATCHDOG_CLAUSES and ck.known_finding(rec) is None and not confirm_watchdog(ck, rn, res, clause):
+            # the watchdog measures WALL seconds: on a heavily loaded machine a slow but finite solve() exceeds 15 s.  A verdict
+            # that is not a known finding is reported only if a second run with a 120 s limit shows it again.
+            ck.count("watchdog-alarm-not-confirmed-with-120s-limit(machine load)")
+            ck.log("watchdog alarm not confirmed (load): %s %s k=%s [%s]" % (res["planner"], res["history"], res["k"], clause))
+            continue
         v = ck.report(rec, script=res["script"], expected="spec oracle: %s" % clause,
                       observed={"op": i, "what": text, "out": (res["out"] or [])[:12], "stderr": sanitizer_summary(res["err"])},
                       engine="proto")
